@@ -62,27 +62,52 @@ fn base_keys() -> &'static Vec<(IpaPrivateKey, IpaPublicKey)> {
     })
 }
 
-/// A helper's key registry: key id = position in the list.
-pub struct Reg(Vec<(IpaPrivateKey, IpaPublicKey)>);
+/// A helper's key registry: key id = position in the list. It is the REAL `KeyRegistry<KeyPair>`
+/// (hpke/registry.rs), so its lookup (incl. the bounds check for unknown key ids) is part of what is compared.
+pub struct Reg(KeyRegistry<KeyPair>);
 
 impl Reg {
+    pub fn from_pairs(keys: Vec<(IpaPrivateKey, IpaPublicKey)>) -> Self {
+        let mut ks: Vec<KeyPair> = keys.into_iter().map(KeyPair::from).collect();
+        macro_rules! arr {
+            ($n:literal) => {{
+                let a: [KeyPair; $n] = std::array::from_fn(|_| ks.remove(0));
+                KeyRegistry::from_keys(a)
+            }};
+        }
+        Reg(match ks.len() {
+            0 => KeyRegistry::empty(),
+            1 => arr!(1),
+            2 => arr!(2),
+            3 => arr!(3),
+            4 => arr!(4),
+            5 => arr!(5),
+            6 => arr!(6),
+            7 => arr!(7),
+            8 => arr!(8),
+            n => panic!("harness: registry of {n} keys not supported"),
+        })
+    }
+
     pub fn parse(s: &str) -> Self {
-        Reg(parse_nat_list::<usize>(s)
-            .into_iter()
-            .map(|i| base_keys()[i].clone())
-            .collect())
+        Self::from_pairs(
+            parse_nat_list::<usize>(s)
+                .into_iter()
+                .map(|i| base_keys()[i].clone())
+                .collect(),
+        )
     }
 }
 
 impl PrivateKeyRegistry for Reg {
     fn private_key(&self, key_id: u8) -> Option<&IpaPrivateKey> {
-        self.0.get(usize::from(key_id)).map(|k| &k.0)
+        self.0.private_key(key_id)
     }
 }
 
 impl PublicKeyRegistry for Reg {
     fn public_key(&self, key_id: u8) -> Option<&IpaPublicKey> {
-        self.0.get(usize::from(key_id)).map(|k| &k.1)
+        self.0.public_key(key_id)
     }
 }
 
@@ -236,7 +261,7 @@ macro_rules! impl_ty {
                 let k = usize::from(kid) % N_BASE_KEYS;
                 let mut keys = vec![base_keys()[0].clone(); usize::from(kid) + 1];
                 keys[usize::from(kid)] = base_keys()[k].clone();
-                let reg = Reg(keys);
+                let reg = Reg::from_pairs(keys);
                 let (report, info_enc): (HybridReport<$bk, $v>, Vec<u8>) = if evt == 0 {
                     let info = HybridImpressionInfo::new(kid);
                     let e = info.to_enc_bytes().to_vec();
